@@ -697,3 +697,34 @@ func Replay(t *testing.T, id string, funcs map[string]ReplayFunc) {
 		t.Errorf("REPLAY-FAIL sig=%s oracle=%s\nobserved: %s\nexpected: %s", res.Signature, res.Oracle, clip(res.Observed, 2000), clip(res.Expected, 2000))
 	}
 }
+
+// ---------------------------------------------------------------------------
+// native fuzzing support (thorough tier): the oracle runs inside the fuzz
+// target; a failure that is not an open finding is saved as a replay file in
+// VERIF_OUT before the target fails, so the driver can confirm and report it.
+
+// FuzzRun prepares a pseudo run for use inside a fuzz target.
+func FuzzRun(id, section string) (*Run, *Section) {
+	r := &Run{ID: id, Env: LoadEnv(), start: time.Now(), avoid: map[string]bool{}, known: map[string]bool{}}
+	for _, f := range Findings() {
+		if f.Property == id && f.State == "open" && f.Key != "" {
+			r.known[f.Key] = true
+		}
+	}
+	s := r.newSection(section, "native fuzz")
+	s.crumbOn = false
+	return r, s
+}
+
+// FuzzReport saves f (unless it is a known finding) and reports whether the target must fail.
+func (s *Section) FuzzReport(f *Failure) bool {
+	if f == nil || s.run.Known(f.Signature) {
+		return false
+	}
+	dir := filepath.Join(s.run.Env.Out, "fuzzfail")
+	_ = os.MkdirAll(dir, 0o755)
+	b, _ := json.MarshalIndent(f, "", " ")
+	name := fmt.Sprintf("%s-%016x.json", f.Section, HashBytes(b))
+	_ = os.WriteFile(filepath.Join(dir, name), b, 0o644)
+	return true
+}
